@@ -49,6 +49,43 @@ def gen_specs(rnd, nfields, compact=True):
     return specs
 
 
+def gen_wide_specs(rnd):
+    """9-12 fields, most of them explicitly positioned (1..k and -m..-1), 2-4 unpositioned ones in between"""
+    n = rnd.randint(9, 12)
+    u = rnd.randint(2, 4)
+    m = rnd.randint(0, 3)
+    k = n - u - m
+    poss = list(range(1, k + 1)) + list(range(-m, 0)) + [None] * u
+    rnd.shuffle(poss)
+    specs = []
+    for i in range(n):
+        nm = "f" + "abcdefghijkl"[i]
+        kind = rnd.choice(["str", "str", "flag", "int"])
+        flag = "-" + nm[1]
+        s = dict(kind=kind, argstr=flag if kind != "str" else rnd.choice([flag, "", "--" + nm]))
+        s.update(name=nm, position=poss[i])
+        specs.append(s)
+    return specs
+
+
+def gen_xref_specs(rnd, nfields):
+    """as gen_specs (compact), with one list-valued field and a later string field whose template also names the first element
+    of that list ({other[0]})"""
+    while True:
+        specs = gen_specs(rnd, nfields, compact=True)
+        i = rnd.randrange(0, nfields - 1)
+        j = rnd.randrange(i + 1, nfields)
+        nm, ref = specs[j]["name"], specs[i]["name"]
+        flag = "-" + ref[1]
+        specs[i].update(rnd.choice([dict(kind="multi", argstr=flag), dict(kind="list", argstr=flag, sep=" "), dict(kind="list", argstr=flag, sep=","),
+                                    dict(kind="list", argstr=flag + "...", sep=" ")]))
+        if specs[i]["kind"] != "list":
+            specs[i].pop("sep", None)
+        specs[j].pop("sep", None)
+        specs[j].update(kind="str", argstr="--%s={%s}:{%s[0]}" % (nm, nm, ref), xref=ref)
+        return specs
+
+
 def make_task(specs, name="Gen"):
     from pydra.compose import shell
     from pydra.utils.typing import MultiInputObj
